@@ -63,6 +63,8 @@ type label struct {
 	Must   []string `json:"must"`
 	Tags   []string `json:"tags"`
 	Viol   []string `json:"viol"`
+	// uses: how many times WithNonce has been applied to the context so far (0 = none); SetNonce: the index it sets
+	Nonce int `json:"nonce"`
 }
 
 type ctxState struct {
@@ -141,9 +143,11 @@ func newWorld(name string, reg []string) *world {
 			http.Error(rw, "no session", 599)
 			return
 		}
-		// the uses of this context are rendered while the request is being served
+		// the uses of this context are rendered while the request is being served; a command may derive a new
+		// context for the rest of the request (templ.WithNonce: a nonce middleware inside the CSS middleware)
+		ctx := r.Context()
 		for f := range s.cmds {
-			f(r.Context())
+			ctx = f(ctx)
 		}
 		io.WriteString(rw, "done")
 	})
@@ -153,12 +157,12 @@ func newWorld(name string, reg []string) *world {
 
 // session = one HTTP request through CSSMiddleware whose handler renders what the harness asks for
 type session struct {
-	cmds     chan func(context.Context)
+	cmds     chan func(context.Context) context.Context
 	finished chan error
 }
 
 func (w *world) openSession() *session {
-	s := &session{cmds: make(chan func(context.Context)), finished: make(chan error, 1)}
+	s := &session{cmds: make(chan func(context.Context) context.Context), finished: make(chan error, 1)}
 	w.mu.Lock()
 	w.nsess++
 	path := "/s/" + strconv.Itoa(w.nsess)
@@ -182,9 +186,14 @@ func (w *world) openSession() *session {
 }
 
 func (s *session) do(f func(context.Context)) {
+	s.doCtx(func(ctx context.Context) context.Context { f(ctx); return ctx })
+}
+
+// doCtx runs f inside the request; the context f returns is the request's context from then on.
+func (s *session) doCtx(f func(context.Context) context.Context) {
 	done := make(chan struct{})
 	select {
-	case s.cmds <- func(ctx context.Context) { f(ctx); close(done) }:
+	case s.cmds <- func(ctx context.Context) context.Context { defer close(done); return f(ctx) }:
 		<-done
 	case err := <-s.finished:
 		vhlib.Fatal("middleware session ended early: %v", err)
@@ -227,6 +236,30 @@ func (c *rctx) render(comp templ.Component) (string, error) {
 		err = comp.Render(c.ctx, &buf)
 	}
 	return buf.String(), err
+}
+
+func nonceValue(ctxName string, idx int) string {
+	if idx == 0 {
+		return ""
+	}
+	return fmt.Sprintf("nonce-%s-%d", ctxName, idx)
+}
+
+// setNonce is the model's SetNonce: ctx = templ.WithNonce(ctx, nonce) at this point of the history. It returns what
+// templ.GetNonce reports for the derived context.
+func (c *rctx) setNonce(nonce string) string {
+	var got string
+	if c.sess != nil {
+		c.sess.doCtx(func(ctx context.Context) context.Context {
+			ctx = templ.WithNonce(ctx, nonce)
+			got = templ.GetNonce(ctx)
+			return ctx
+		})
+	} else {
+		c.ctx = templ.WithNonce(c.ctx, nonce)
+		got = templ.GetNonce(c.ctx)
+	}
+	return got
 }
 
 func (c *rctx) close() {
@@ -314,9 +347,17 @@ func (w *world) itemValue(it item) any {
 	return nil
 }
 
-// project turns rendered bytes into the specification's tokens.
-func (w *world) project(doc string) ([]tok, error) {
+// tagInfo is one emitted <script>/<style> start tag and its nonce attribute.
+type tagInfo struct {
+	Tag      string
+	HasNonce bool
+	Nonce    string
+}
+
+// project turns rendered bytes into the specification's tokens (and lists the script/style start tags).
+func (w *world) project(doc string) ([]tok, []tagInfo, error) {
 	var out []tok
+	var tags []tagInfo
 	z := html.NewTokenizer(strings.NewReader(doc))
 	in := ""
 	type hit struct {
@@ -326,13 +367,20 @@ func (w *world) project(doc string) ([]tok, error) {
 	for {
 		switch z.Next() {
 		case html.ErrorToken:
-			return out, nil
+			return out, tags, nil
 		case html.StartTagToken, html.SelfClosingTagToken:
 			t := z.Token()
 			in = ""
 			switch t.Data {
 			case "script", "style":
 				in = t.Data
+				ti := tagInfo{Tag: t.Data}
+				for _, a := range t.Attr {
+					if a.Key == "nonce" {
+						ti.HasNonce, ti.Nonce = true, a.Val
+					}
+				}
+				tags = append(tags, ti)
 			case "section", "article":
 			case "b":
 				for _, a := range t.Attr {
@@ -357,7 +405,7 @@ func (w *world) project(doc string) ([]tok, error) {
 								found = true
 							}
 							if !found {
-								return nil, fmt.Errorf("unexpected class name %q", nm)
+								return nil, nil, fmt.Errorf("unexpected class name %q", nm)
 							}
 						}
 					case strings.HasPrefix(a.Key, "on"):
@@ -369,12 +417,12 @@ func (w *world) project(doc string) ([]tok, error) {
 							}
 						}
 						if !found {
-							return nil, fmt.Errorf("unexpected handler %q", a.Val)
+							return nil, nil, fmt.Errorf("unexpected handler %q", a.Val)
 						}
 					}
 				}
 			default:
-				return nil, fmt.Errorf("unexpected element <%s>", t.Data)
+				return nil, nil, fmt.Errorf("unexpected element <%s>", t.Data)
 			}
 		case html.EndTagToken:
 			in = ""
@@ -400,7 +448,7 @@ func (w *world) project(doc string) ([]tok, error) {
 					}
 				}
 				if len(hits) == 0 {
-					return nil, fmt.Errorf("unexpected script %q", txt)
+					return nil, nil, fmt.Errorf("unexpected script %q", txt)
 				}
 				sort.Slice(hits, func(a, b int) bool { return hits[a].pos < hits[b].pos })
 				for _, h := range hits {
@@ -409,12 +457,12 @@ func (w *world) project(doc string) ([]tok, error) {
 			case "style":
 				ts, err := w.rules(txt, "def")
 				if err != nil {
-					return nil, err
+					return nil, nil, err
 				}
 				out = append(out, ts...)
 			default:
 				if strings.TrimSpace(txt) != "" && txt != "x" {
-					return nil, fmt.Errorf("unexpected text %q", txt)
+					return nil, nil, fmt.Errorf("unexpected text %q", txt)
 				}
 			}
 		}
@@ -519,6 +567,7 @@ type report struct {
 	Real    string   `json:"real_tokens"`
 	Output  string   `json:"real_output"`
 	Viol    []string `json:"violated"`
+	Nonce   string   `json:"nonce_in_force,omitempty"`
 }
 
 func describe(l label) string {
@@ -538,6 +587,13 @@ type runner struct {
 	tagStats map[string]*[2]int // tag -> {real == as-predicted, real != predicted}
 	sigs     map[string]int
 	actions  map[string]int
+	// nonce binding (bonus, never a verdict about C12): the start tags of the last step, what GetNonce said after the last
+	// SetNonce, and counters
+	lastTags     []tagInfo
+	lastGetNonce string
+	nonceScripts int // <script> tags that carried the nonce in force
+	nonceSets    int // SetNonce steps applied (checked steps and history prefixes)
+	afterNonce   int // checked uses in a context whose nonce had been set before
 }
 
 // step performs one action on the realised contexts and returns the real tokens.
@@ -559,12 +615,64 @@ func (r *runner) step(ctxs map[string]*rctx, l label, nest int) ([]tok, string, 
 	if c == nil {
 		return nil, "", fmt.Errorf("no context %q", l.C)
 	}
+	r.lastTags = nil
+	if l.A == "SetNonce" {
+		// ctx = templ.WithNonce(ctx, nonce) at this point of the history; nothing is written
+		r.lastGetNonce = c.setNonce(nonceValue(l.C, l.Nonce))
+		r.nonceSets++
+		return nil, "", nil
+	}
 	doc, err := c.render(r.w.component(l, nest))
 	if err != nil {
 		return nil, doc, err
 	}
-	ts, err := r.w.project(doc)
+	ts, tags, err := r.w.project(doc)
+	r.lastTags = tags
 	return ts, doc, err
+}
+
+// withoutNonce replays the same history with every SetNonce left out and evaluates the step properties on the last
+// step: tells a violation that WithNonce causes from one that is there anyway. ok = the comparison is meaningful.
+func (r *runner) withoutNonce(modes []string, labels []label, l label, nest int) (viol []string, ok bool) {
+	set := false
+	for _, p := range labels {
+		if p.A == "SetNonce" && p.C == l.C {
+			set = true
+		}
+	}
+	mode := ""
+	for i, n := range r.ctxNames {
+		if n == l.C && i < len(modes) {
+			mode = modes[i]
+		}
+	}
+	if !set || mode == "fresh" || l.A == "SetNonce" || l.A == "StylesheetRequest" {
+		return nil, false // (a fresh context is initialised by WithNonce: without it the history means something else)
+	}
+	ctxs := map[string]*rctx{}
+	for i, m := range modes {
+		ctxs[r.ctxNames[i]] = r.w.newCtx(m)
+	}
+	defer func() {
+		for _, c := range ctxs {
+			c.close()
+		}
+	}()
+	sets := r.nonceSets
+	defer func() { r.nonceSets = sets }()
+	for _, p := range labels {
+		if p.A == "SetNonce" {
+			continue
+		}
+		if _, _, err := r.step(ctxs, p, 0); err != nil {
+			return nil, false
+		}
+	}
+	ts, _, err := r.step(ctxs, l, nest)
+	if err != nil {
+		return nil, false
+	}
+	return violations(ts, l.Before, l.Must, mode, r.w.reg), true
 }
 
 // replay runs a history (path) and then checks the last label against the real code.
@@ -589,10 +697,10 @@ func (r *runner) replay(modes []string, path []label, last label, nest int) {
 			return // reported where this transition itself is replayed
 		}
 	}
-	r.check(ctxs, modes, hist, last, nest)
+	r.check(ctxs, modes, hist, path, last, nest)
 }
 
-func (r *runner) check(ctxs map[string]*rctx, modes []string, hist []string, l label, nest int) bool {
+func (r *runner) check(ctxs map[string]*rctx, modes []string, hist []string, labels []label, l label, nest int) bool {
 	ts, doc, err := r.step(ctxs, l, nest)
 	if err != nil {
 		vhlib.Fatal("%s: %v in %q", describe(l), err, doc)
@@ -607,7 +715,30 @@ func (r *runner) check(ctxs map[string]*rctx, modes []string, hist []string, l l
 		}
 	}
 	rep := report{World: r.w.name, Modes: modes, Path: hist, Action: describe(l), Ctx: l.C, Nesting: nestNames[nest], Before: l.Before,
-		Spec: spec, Real: real, Output: doc}
+		Spec: spec, Real: real, Output: doc, Nonce: nonceValue(l.C, l.Nonce)}
+	// nonce binding (expectation taken from the unchanged code: scripttemplate.go writes nonce="..." on every <script> it
+	// emits when the context has a nonce, runtime.go's <style type="text/css"> never carries one). Not part of C12: drift.
+	if l.A == "SetNonce" {
+		if r.lastGetNonce != rep.Nonce {
+			r.drift++
+			vhlib.Drift(fmt.Sprintf("templ.GetNonce reports %q after templ.WithNonce(ctx, %q)", r.lastGetNonce, rep.Nonce), rep)
+		}
+	} else {
+		if l.Nonce > 0 {
+			r.afterNonce++
+		}
+		for _, ti := range r.lastTags {
+			wantAttr := ti.Tag == "script" && l.Nonce > 0
+			if ti.HasNonce != wantAttr || (wantAttr && ti.Nonce != rep.Nonce) {
+				r.drift++
+				vhlib.Drift(fmt.Sprintf("nonce attribute of an emitted <%s>: present=%v value=%q, the model of the unchanged code expects present=%v value=%q",
+					ti.Tag, ti.HasNonce, ti.Nonce, wantAttr, rep.Nonce), rep)
+				break
+			} else if wantAttr {
+				r.nonceScripts++
+			}
+		}
+	}
 	if len(l.Tags) == 1 {
 		st := r.tagStats[l.Tags[0]]
 		if st == nil {
@@ -639,6 +770,15 @@ func (r *runner) check(ctxs map[string]*rctx, modes []string, hist []string, l l
 		}
 	case len(viol) > 0:
 		r.fails++
+		if v2, ok := r.withoutNonce(modes, labels, l, nest); ok && len(v2) == 0 {
+			// the same history without templ.WithNonce satisfies the step properties: SetNonce does not leave the registry untouched
+			for _, v := range viol {
+				r.sigs["Registry.SetNonce."+v]++
+				vhlib.Fail("Registry.SetNonce."+v, "after templ.WithNonce on the context the real output violates "+v+
+					" (the same history without WithNonce does not): WithNonce does not keep the registry of emitted scripts, classes and once handles", rep)
+			}
+			break
+		}
 		for _, v := range viol {
 			r.sigs["Registry.Unmodelled."+v]++
 			vhlib.Fail("Registry.Unmodelled."+v, "the real output violates "+v+" and is not what the model of the code predicts", rep)
@@ -660,7 +800,8 @@ func (r *runner) summary(extra map[string]any) map[string]any {
 	for k, v := range r.tagStats {
 		ts[k] = map[string]int{"as_predicted": v[0], "different": v[1]}
 	}
-	m := map[string]any{"fails": r.fails, "drift": r.drift, "steps": r.steps, "tags": ts, "sigs": r.sigs, "actions": r.actions}
+	m := map[string]any{"fails": r.fails, "drift": r.drift, "steps": r.steps, "tags": ts, "sigs": r.sigs, "actions": r.actions,
+		"nonce_sets": r.nonceSets, "uses_after_nonce": r.afterNonce, "scripts_with_nonce": r.nonceScripts}
 	for k, v := range extra {
 		m[k] = v
 	}
@@ -673,6 +814,9 @@ func merge(rs []*runner, extra map[string]any) map[string]any {
 		tot.fails += r.fails
 		tot.drift += r.drift
 		tot.steps += r.steps
+		tot.nonceSets += r.nonceSets
+		tot.afterNonce += r.afterNonce
+		tot.nonceScripts += r.nonceScripts
 		for k, v := range r.tagStats {
 			if tot.tagStats[k] == nil {
 				tot.tagStats[k] = &[2]int{}
@@ -766,7 +910,9 @@ func edgesMode(worlds []*world, seed int) {
 			}
 		}
 	}
-	pathTo := func(k string) []label {
+	// the path and the initial state it starts from (contexts are created in the modes of THAT state: SetNonce turns a
+	// fresh context into an initialised one on the way)
+	pathTo := func(k string) ([]label, string) {
 		var rev []label
 		for pred[k] != nil {
 			rev = append(rev, pred[k].Lbl)
@@ -775,7 +921,11 @@ func edgesMode(worlds []*world, seed int) {
 		for i, j := 0, len(rev)-1; i < j; i, j = i+1, j-1 {
 			rev[i], rev[j] = rev[j], rev[i]
 		}
-		return rev
+		return rev, k
+	}
+	stateOf := map[string]state{}
+	for _, e := range edges {
+		stateOf[e.fromKey] = e.from
 	}
 	names := []string{"c1", "c2"}
 	var rs []*runner
@@ -787,11 +937,15 @@ func edgesMode(worlds []*world, seed int) {
 			if !seen[e.fromKey] {
 				vhlib.Fatal("source state of edge %d is not reachable in the emitted graph", i)
 			}
-			modes := make([]string, len(e.from.Ctx))
-			for j, c := range e.from.Ctx {
+			p, root := pathTo(e.fromKey)
+			rs0 := stateOf[root]
+			if !rs0.Init {
+				vhlib.Fatal("path to the source state of edge %d does not start in an initial state", i)
+			}
+			modes := make([]string, len(rs0.Ctx))
+			for j, c := range rs0.Ctx {
 				modes[j] = c.M
 			}
-			p := pathTo(e.fromKey)
 			if len(p) > maxPath {
 				maxPath = len(p)
 			}
@@ -832,7 +986,7 @@ func histMode(worlds []*world, seed int) {
 			}
 			var hist []string
 			for i, l := range h.Hist {
-				ok := r.check(ctxs, h.Modes, hist, l, (i+seed+wi)%3)
+				ok := r.check(ctxs, h.Modes, hist, h.Hist[:i], l, (i+seed+wi)%3)
 				hist = append(hist, describe(l))
 				if !ok {
 					break // the real registry may have left the modelled state
